@@ -74,8 +74,25 @@ def eval_num(n, env):
         if nm == "sum" and n[2] and env.get("__prog") is not None:
             # CONST[..end].iter().sum() / CONST[a..b].iter().sum() over a constant array of the workspace
             x = strip(n[2][0])
-            while x[0] == "call" and short_callee(x[1]) in ("iter", "into_iter", "copied", "cloned") and x[2]:
-                x = strip(x[2][0])
+            take = skip = None
+            while x[0] in ("call", "cast") and (x[0] == "cast" or (short_callee(x[1]) in ("iter", "into_iter", "copied", "cloned", "take", "skip", "deref", "as_slice", "as_ref") and x[2])):
+                if x[0] == "call" and short_callee(x[1]) == "take" and len(x[2]) == 2:
+                    take = eval_num(x[2][1], env)
+                    if take is None:
+                        return None
+                if x[0] == "call" and short_callee(x[1]) == "skip" and len(x[2]) == 2:
+                    skip = eval_num(x[2][1], env)
+                    if skip is None:
+                        return None
+                x = strip(x[1]) if x[0] == "cast" else strip(x[2][0])
+            if x[0] == "kx" and dict(x[1]).get("def") and (take is not None or skip is not None):
+                # CONST.iter().skip(a).take(n).sum()
+                vals = const_array_numbers(env["__prog"], dict(x[1]).get("def"))
+                if vals is not None:
+                    lo = int(skip or 0)
+                    hi = min(len(vals), lo + int(take)) if take is not None else len(vals)
+                    if 0 <= lo <= len(vals) and take is None or (take is not None and take >= 0):
+                        return sum((Fraction(v) for v in vals[lo:hi]), Fraction(0))
             if x[0] == "call" and short_callee(x[1]) == "index" and len(x[2]) == 2:
                 arr, rng = strip(x[2][0]), strip(x[2][1])
                 d = dict(arr[1]).get("def") if arr[0] == "kx" else None
